@@ -544,6 +544,6 @@ func init() {
 		Run:            c15Run,
 		Replay:         c15Replay,
 		QuickBudget:    150 * time.Second,
-		ThoroughBudget: 15 * time.Minute,
+		ThoroughBudget: 8 * time.Minute,
 	})
 }
